@@ -602,49 +602,40 @@ func (n *BlockNode) Release() {
 
 // Render renders the block node
 func (n *BlockNode) Render(w io.Writer, ctx *RenderContext) error {
-	// Determine which content to use - from context blocks or default
-	var content []Node
-
-	// Store the current block content as parent content if needed
-	// This is critical for multi-level inheritance
-	if _, exists := ctx.parentBlocks[n.name]; !exists {
-		// First time we've seen this block - store its original content
-		// This needs to happen for any block, not just in extending templates
-		if blockContent, ok := ctx.blocks[n.name]; ok && len(blockContent) > 0 {
-			// Store the content from blocks
-			ctx.parentBlocks[n.name] = blockContent
-		} else {
-			// Otherwise store the default body
-			ctx.parentBlocks[n.name] = n.body
+	// The definitions of this block along the extends chain, most derived
+	// first, were collected while the chain was walked (RootNode.Render). A
+	// block that does not stand at the top level of its template (it is nested
+	// in another block, a loop or a condition) was not seen there: it is the
+	// definition furthest up the chain.
+	chain := ctx.blockChain[n.name]
+	if len(chain) == 0 || chain[len(chain)-1] != n {
+		chain = append(chain[:len(chain):len(chain)], n)
+		if ctx.blockChain == nil {
+			ctx.blockChain = make(map[string][]*BlockNode)
 		}
+		ctx.blockChain[n.name] = chain
 	}
 
-	// Now get the content to render
-	if blockContent, ok := ctx.blocks[n.name]; ok && len(blockContent) > 0 {
-		content = blockContent
-	} else {
-		// Otherwise, use the default content from this block node
-		content = n.body
-	}
+	// The most derived definition wins, even when its body is empty
+	return renderBlockDefinition(w, ctx, chain, 0)
+}
 
-	// Save the current block for parent() function support
-	previousBlock := ctx.currentBlock
-	ctx.currentBlock = n
+// renderBlockDefinition renders the definition at the given position of a
+// block's chain and keeps track of that position for the parent() function
+func renderBlockDefinition(w io.Writer, ctx *RenderContext, chain []*BlockNode, level int) error {
+	previousBlock, previousLevel := ctx.currentBlock, ctx.blockLevel
+	ctx.currentBlock, ctx.blockLevel = chain[level], level
 
-	// Create an isolated context for rendering this block
-	// This prevents parent() from accessing the wrong block context
-	blockCtx := ctx
+	// Restore the enclosing block on every path, also when a node fails
+	defer func() {
+		ctx.currentBlock, ctx.blockLevel = previousBlock, previousLevel
+	}()
 
-	// Render the appropriate content
-	for _, node := range content {
-		err := node.Render(w, blockCtx)
-		if err != nil {
+	for _, node := range chain[level].body {
+		if err := node.Render(w, ctx); err != nil {
 			return err
 		}
 	}
-
-	// Restore the previous block
-	ctx.currentBlock = previousBlock
 	return nil
 }
 
@@ -726,31 +717,13 @@ func (n *ExtendsNode) Render(w io.Writer, ctx *RenderContext) error {
 	// Ensure the context is released even if an error occurs
 	defer parentCtx.Release()
 
-	// First, copy any existing parent blocks to maintain the inheritance chain
-	// This allows for multi-level parent() calls to work properly
-	for name, nodes := range ctx.parentBlocks {
-		// Copy to the new context to preserve the inheritance chain
-		parentCtx.parentBlocks[name] = nodes
-	}
-
-	// Extract blocks from the parent template and store them as parent blocks
-	// for any blocks defined in the child but not yet in the parent chain
-	if rootNode, ok := parentTemplate.nodes.(*RootNode); ok {
-		for _, child := range rootNode.Children() {
-			if block, ok := child.(*BlockNode); ok {
-				// If we don't already have a parent for this block,
-				// use the parent template's block definition
-				if _, exists := parentCtx.parentBlocks[block.name]; !exists {
-					parentCtx.parentBlocks[block.name] = block.body
-				}
-			}
+	// Hand the block definitions collected so far (from the most derived
+	// template down to this one) over to the parent, which appends its own
+	if len(ctx.blockChain) > 0 {
+		parentCtx.blockChain = make(map[string][]*BlockNode, len(ctx.blockChain))
+		for name, chain := range ctx.blockChain {
+			parentCtx.blockChain[name] = chain[:len(chain):len(chain)]
 		}
-	}
-
-	// Finally, copy all block definitions from the child context
-	// These are the blocks that will actually be rendered
-	for name, nodes := range ctx.blocks {
-		parentCtx.blocks[name] = nodes
 	}
 
 	// Render the parent template with the updated context
@@ -1478,23 +1451,16 @@ func (n *ApplyNode) Render(w io.Writer, ctx *RenderContext) error {
 func (n *RootNode) Render(w io.Writer, ctx *RenderContext) error {
 	// First pass: collect blocks and check for extends
 	var extendsNode *ExtendsNode
-	var hasChildBlocks bool
 
-	// Check if this is being rendered as a parent template (ctx.extending is true)
-	// In that case, we should NOT override block definitions
-	if ctx.extending {
-		hasChildBlocks = true
-	}
-
-	// First register all blocks in this template before processing extends
-	// Needed to ensure all blocks are available for parent() calls
+	// Register the blocks of this template behind the definitions that came
+	// from the templates extending it: the chain of a block lists its
+	// definitions from the most derived template to the base layout
 	for _, child := range n.children {
 		if block, ok := child.(*BlockNode); ok {
-			// Only register blocks that haven't been defined by a child template
-			if !hasChildBlocks || ctx.blocks[block.name] == nil {
-				// Register the block
-				ctx.blocks[block.name] = block.body
+			if ctx.blockChain == nil {
+				ctx.blockChain = make(map[string][]*BlockNode)
 			}
+			ctx.blockChain[block.name] = append(ctx.blockChain[block.name], block)
 		} else if ext, ok := child.(*ExtendsNode); ok {
 			// If this is an extends node, record it for later
 			extendsNode = ext
